@@ -21,7 +21,7 @@ RULE = ("cases: random recipes biased to small leaf boxes, half of them built th
         "(k<=14, otherwise the canonical completion plus 4096 random ones, counted as sampled). non-trivial: >=1 auxiliary "
         "column and both truth values occurred; distinct by canonical shape digest"
         ' Also: hostile twins, aliases and the bounded sweep of small formulas.')
-BUDGET = {"quick": (12, 350, 90), "thorough": (16, 2500, 1200)}
+BUDGET = {"quick": (12, 1050, 90), "thorough": (16, 2500, 1200)}
 PYTEST = True     # thorough tier also runs the repository's own tests under these monitors
 MANDATORY = ["judged:completeness", "judged:soundness-safe", "contract:AtLeast.to_ge_polyhedron", "count:safe-models", "count:unsafe-models"]
 KMAX = 14
